@@ -226,7 +226,7 @@ pub fn run_c09(run: &Run) {
     let l = large(4 + run.seed * 1000);
     run.sample(json!({"type": "large", "index": 4 + run.seed * 1000, "statements": l.labels.len(), "shape": l.shape, "text_prefix": l.text(None, ("", "", "")).chars().take(300).collect::<String>()}));
     // labels with characters biodivine reserves (known finding K2): native must work, the bridge is recorded
-    let reserved = ["a (", "x&y", "p|q", "n!", "e=f", "l<r", "q?", "k:v", "u^v", "g>h", "r)"];
+    let reserved = ["a (", "x&y", "p|q", "n!", "e=f", "l<r", "q?", "k:v", "u^v", "g>h", "r)", "b_", "_62_", "a_20_b", "_"];
     for (i, lab) in reserved.iter().enumerate() {
         let labels = vec![lab.to_string(), "b".to_string()];
         let conds = vec![Fm::not(Fm::Atom(1)), Fm::bin(1, Fm::Atom(0), Fm::Atom(1))];
